@@ -323,7 +323,7 @@ func (w *world) readAll(phase string) {
 			if os.Getenv("VERIF_DEBUG_LOST") != "" && ret == "notfound" && !w.unsettled && w.lastPut[k] != "" && !w.forgot[k] {
 				fmt.Printf("DEBUGLOST %s [%s] from m%d last=%s\n  %s\n", k, phase, m.Index, w.lastPut[k], strings.Join(w.dbg[k], "\n  "))
 			}
-			w.w.Emit(trace.Ev{"t": "read", "k": k, "from": m.Index, "v": v, "ret": ret, "phase": phase, "settled": !w.unsettled})
+			w.w.Emit(trace.Ev{"t": "read", "k": k, "from": m.Index, "v": v, "ret": ret, "phase": phase, "settled": !w.unsettled, "live": len(w.c.Live())})
 		}
 	}
 }
@@ -520,6 +520,21 @@ func TestC03(t *testing.T) {
 						}
 						// the keys expire while the previous owner of their partition still holds them
 						w.reapExpired(ttlKeys, ttlDeadline, "after push, before any move")
+						if len(c.Live()) < 5 && rng.Intn(2) == 0 {
+							// a second join before anything was moved: partitions get two previous owners, the older of
+							// which holds the data
+							w.readAll("after the first of two joins")
+							w.ops(8, "after the first of two joins")
+							desc = append(desc, "join")
+							w.step("join (second in a row)")
+							if _, err := c.AddMember(); err != nil {
+								panic(err)
+							}
+							if !w.waitViews() {
+								ok = false
+								break
+							}
+						}
 					} else {
 						continue
 					}
@@ -680,9 +695,12 @@ func TestC02(t *testing.T) {
 				defer close(finished)
 				rng := rand.New(rand.NewSource(seed))
 				R := 2 + rng.Intn(2)
-				N := R + 1 + rng.Intn(2)
+				N := R + rng.Intn(3) // N = R (no spare member: after a failure fewer than R remain) .. R+2
 				if N > 5 {
 					N = 5
+				}
+				if N < 3 {
+					N = 3
 				}
 				rr := rng.Intn(2) == 0
 				c, err := cluster.Start(cluster.Options{Replicas: R, Partitions: 13, ReadRepair: rr, Manual: s%4 != 3}, N)
@@ -707,7 +725,8 @@ func TestC02(t *testing.T) {
 						ok = false
 						break
 					}
-					w.beforeLoss(nil)
+					// every asserted key was acknowledged while >= R members were present, and at most R-1 members fail in
+					// all: no key is dropped from the assertion here, however few copies the members hold by now
 					live := c.Live()
 					var victim *cluster.Member
 					switch rng.Intn(3) {
@@ -787,6 +806,12 @@ func TestC02(t *testing.T) {
 						break
 					}
 					w.step("stable after the stop")
+					// white box: how many copies of each key the surviving members store (tells known finding D27 - a copy that
+					// is stored but cannot be read - from a copy that is gone)
+					for _, k := range w.keys {
+						p, b := w.copies(k)
+						w.w.Emit(trace.Ev{"t": "survivors", "k": k, "n": p + b, "phase": "after the stop"})
+					}
 					w.readAll("after the stop")
 				}
 				if ok {
